@@ -80,6 +80,11 @@ CHECKS = {
    technique="stateless schedule exploration (preemption- and early-timer-bounded DFS, execution cap reported) of arrivals through a real engine's Queue processor with its background goroutines, virtual time, invariant + final oracles",
    text="Scenarios (two arrivals on a size-1 queue, a low- then a high-priority arrival, shutdown with a waiter; thorough adds three same-priority arrivals and three arrivals on a size-2 queue) run through a real streams.Stream whose flow contains the Queue processor (process loop every 100 ms, TTL watcher, removal goroutines) and a 1-per-second quota. All schedules with <=1 preemption and <=1 early time step (2/1 thorough) up to an execution cap: every request gets exactly one verdict no later than TTL + 4 ticks, waiters never exceed queue_size at any quiescent point, admissions fit the quota windows, a waiter with a better priority (or same priority and already waiting before the other arrived) is never overtaken, a rejection before TTL only when the queue was full, shutdown releases all waiters; a crash of the worker is a violation.",
    note="execution cap per scenario (evidence reports exhaustive:false and the cap when hit); scheduling decisions at sync operations of processors/queue, the in-memory shared queue and the quota; admission order observed through the availability of waiters' verdicts"),
+
+ "C18": dict(level="exploration", engine="schedx+race-oracle", design="§2.4, §3 C18",
+   technique="stateless schedule exploration (preemption-bounded DFS) of the real engine built with -race, the scheduler's hand-offs hidden from the detector so that it acts as a per-schedule happens-before oracle; serialisability oracle on the verdicts",
+   text="Five scenarios (two requests through one flow; a request racing another transaction's response on a concurrency quota; a request racing the quota metrics observation; a response racing the quota GC pass; policy mode: transaction look-ups racing a reload and the vacuum loops) are explored under all schedules with <=2 preemptions (3 thorough, execution cap reported). A violation is any happens-before race whose two accesses are in repository functions in any explored schedule (keyed by the function pair), a verdict multiset that no one-at-a-time order produces, or a crashed worker.",
+   note="Go race detector (HB, not a weak-memory simulator); reports whose racing access is in harness code are ignored; scenario set-up runs with synchronisation visible so goroutine creation orders it; scheduling decisions at sync operations of lunar/engine/streams, lunar/engine/config, toolkit-core/vacuum"),
 }
 NA_REASON = "check not built yet in this round (work in progress; planned per DESIGN.md §3)"
 def main():
